@@ -33,7 +33,7 @@ CLAIMED = {
    note="PARTIAL as labelled: 'the endpoint body raises nothing but OAuth2Error' is searched for by the oracle, not proved — Python code is not total by construction. Readings: the "
         "RFC 6749 description character set is applied to OAuth 2 responses (OAuth 1 problem reports are form-encoded; RFC 5849 defines neither registry nor set); for JOSE calls "
         "ValueError('Invalid JSON Web Key Set') for an unknown kid and the ValueError / InvalidUnwrap / InvalidTag of JWE decryption are the documented outcomes (docstring, tests/jose). "
-        "Not driven: flask_oauth1, Django integrations.",
+        "Not driven: the Django provider integrations.",
    technique="Lean 4 proof over an AST-regenerated error table + error-path model (correspondence on constructors) + exhaustive-pool hostile-input oracle",
    design="§5 C20"),
  "C18": dict(
